@@ -135,9 +135,11 @@ UNIT = {
      ],
      'loops': {
         1: {'invariant': [
-              ('pairing_so_far', 'new_filters@.len() == i && forall|j: int| #![trigger new_filters@[j]] #![trigger parms_for(decode_params@, j)] 0 <= j < i ==> filter_of(filters@[j]@, parms_for(decode_params@, j), %s) == Some(new_filters@[j])' % ST)]},
+              # stated over the /DecodeParms list AS THE DICTIONARY HAS IT (parms_of(d0)), not over whatever local the program keeps
+              # the parameters in: any representation of the list (Vec<Option<Dictionary>>, a filtered copy, ..) assembles
+              ('pairing_so_far', 'parms_of(d0, %s) matches Ok(pp__) && new_filters@.len() == i && forall|j: int| #![trigger new_filters@[j]] #![trigger parms_for(pp__@, j)] 0 <= j < i ==> filter_of(filters@[j]@, parms_for(pp__@, j), %s) == Some(new_filters@[j])' % (ST, ST))]},
         2: {'invariant': [
-              ('file_pairing_so_far', 'new_file_filters@.len() == i && forall|j: int| #![trigger new_file_filters@[j]] #![trigger fparms_for(file_decode_params@, j)] 0 <= j < i ==> filter_of(file_filters@[j]@, fparms_for(file_decode_params@, j), %s) == Some(new_file_filters@[j])' % ST)]},
+              ('file_pairing_so_far', 'fparms_of(d0, %s) matches Ok(fp__) && new_file_filters@.len() == i && forall|j: int| #![trigger new_file_filters@[j]] #![trigger fparms_for(fp__@, j)] 0 <= j < i ==> filter_of(file_filters@[j]@, fparms_for(fp__@, j), %s) == Some(new_file_filters@[j])' % (ST, ST))]},
      },
      'rewrites': [
         {'where': 'sig', 'rule': 'R2', 'regex': r'\Afn ', 'replace': 'pub fn '},
@@ -153,8 +155,10 @@ UNIT = {
         enum_loop('filter', 'file_filters'),
         # R2: the deref coercion `&Name -> &str` (impl Deref for Name, primitive.rs:326, same body as Name::as_str) made explicit
         {'rule': 'R2', 'find': 'StreamFilter::from_kind_and_params(filter, params, resolve)', 'replace': 'StreamFilter::from_kind_and_params(filter.as_str(), params, resolve)', 'count': 2},
-        # R6 (not in the source; see hoist_flatten in the template): a flattened parameter list read with its true meaning
-        {'rule': 'R6', 'count': '*', 'regex': r'(\w+)\.into_iter\(\)\.flatten\(\)\.map\(Some\)\.collect\(\)', 'replace': r'hoist_flatten(\1)'},
+        # R6 (not in the source; env model SeqIter / FlattenExt in the template): a flattened parameter list is read with its true
+        # meaning, on ANY receiver expression and with or without `.map(Some)`; `.collect()` stays verbatim (SeqIter::collect)
+        {'rule': 'R6', 'count': '*', 'regex': r'\.\s*into_iter\(\)\s*\.\s*flatten\(\)', 'replace': r'.into_iter_flatten__()'},
+        {'rule': 'R6', 'count': '*', 'regex': r'\.\s*map\(Some\)', 'replace': r'.map_some__()'},
      ]},
 
   # ---- filter -> decoder
